@@ -31,6 +31,7 @@ type Engine struct {
 	fnIndex map[string]*ssa.Function
 	repoDir string
 	contractFiles []string
+	effFree map[*ssa.Function]bool
 }
 
 func LoadEngine(repoDir string) (*Engine, error) {
@@ -50,9 +51,9 @@ func LoadEngine(repoDir string) (*Engine, error) {
 	if len(errs) > 0 {
 		return nil, fmt.Errorf("repository does not type-check: %s", strings.Join(errs, "; "))
 	}
-	prog, _ := ssautil.AllPackages(pkgs, ssa.NaiveForm|ssa.GlobalDebug)
+	prog, _ := ssautil.AllPackages(pkgs, ssa.NaiveForm|ssa.GlobalDebug|ssa.InstantiateGenerics)
 	prog.Build()
-	e := &Engine{fset: prog.Fset, prog: prog, pkgs: pkgs, cs: NewContractSet(), fnIndex: map[string]*ssa.Function{}, repoDir: repoDir, allPkgs: map[string]*packages.Package{}}
+	e := &Engine{fset: prog.Fset, prog: prog, pkgs: pkgs, cs: NewContractSet(), fnIndex: map[string]*ssa.Function{}, repoDir: repoDir, allPkgs: map[string]*packages.Package{}, effFree: map[*ssa.Function]bool{}}
 	packages.Visit(pkgs, nil, func(p *packages.Package) { e.allPkgs[p.PkgPath] = p })
 	// function index
 	for fn := range ssautil.AllFunctions(prog) {
@@ -234,6 +235,47 @@ func (e *Engine) VerifyFunction(fn *ssa.Function, opts VerifyOpts) (u *Unit) {
 		st.cells[key] = t
 		x.regs[fv] = &Loc{Kind: "cell", Key: key, Root: et}
 	}
+	// model terms for replay: scalar fields and slice lengths of struct parameters at entry
+	for _, p := range fn.Params {
+		pt, ok := p.Type().Underlying().(*types.Pointer)
+		if !ok {
+			continue
+		}
+		stt := structOf(pt.Elem())
+		if stt == nil {
+			continue
+		}
+		obj := Select(st.Heap(heapName(pt.Elem()), ArraySort(SPtr, u.W.SortOf(pt.Elem()))), x.regs[p].(Term))
+		for i := 0; i < stt.NumFields() && i < 12; i++ {
+			ft := stt.Field(i).Type()
+			fv := u.W.FieldGet(pt.Elem(), obj, i)
+			switch ft.Underlying().(type) {
+			case *types.Basic:
+				if fv.Sort == SInt || fv.Sort == SBool || fv.Sort == SReal {
+					u.inputs = append(u.inputs, fv.S)
+				}
+			case *types.Slice:
+				u.inputs = append(u.inputs, SlLen(fv).S)
+			}
+		}
+	}
+	for _, p := range fn.Params {
+		if stt := structOf(p.Type()); stt != nil {
+			if _, isPtr := p.Type().Underlying().(*types.Pointer); !isPtr {
+				for i := 0; i < stt.NumFields() && i < 16; i++ {
+					fv := u.W.FieldGet(p.Type(), x.regs[p].(Term), i)
+					switch stt.Field(i).Type().Underlying().(type) {
+					case *types.Basic:
+						if fv.Sort == SInt || fv.Sort == SBool || fv.Sort == SReal {
+							u.inputs = append(u.inputs, fv.S)
+						}
+					case *types.Slice:
+						u.inputs = append(u.inputs, SlLen(fv).S)
+					}
+				}
+			}
+		}
+	}
 	x.entry = st.Clone()
 	x.bindParams()
 	pkPath, _ := fnKey(fn)
@@ -277,6 +319,10 @@ func (e *Engine) VerifyFunction(fn *ssa.Function, opts VerifyOpts) (u *Unit) {
 				vars[names[i]] = SVal{T: x.term(r.vals[i]), GT: res.At(i).Type()}
 			}
 			for i, en := range fc.Ensures {
+				if en.Trusted {
+					u.usedAssumed[fmt.Sprintf("trusted postcondition of %s: %s", name, en.Text)] = true
+					continue
+				}
 				env := x.specEnv(r.st, vars)
 				env.locals = false
 				env.reach = r.reach
